@@ -20,7 +20,7 @@ RULE = ('case = block of cells of the matrix (primary flags, subkey flags..., op
 ASSUMPTIONS = ['flag sets are read from the most recent self-signature of each component through public attributes', 'when several components qualify any of them may be used (the model only requires that the one used qualifies)']
 MIN_COUNTERS = {'quick': {'cells': 3000, 'refusals_expected_and_seen': 350, 'components_confirmed_cryptographically': 1200, 'form_cells': 120},
                 'thorough': {'cells': 12000}}
-BUDGET = {'quick': (260, 800), 'thorough': (1800, 3600)}
+BUDGET = {'quick': (600, 1500), 'thorough': (1800, 3600)}
 TECHNIQUE = 'runtime monitoring: exhaustive policy-matrix enumeration against a policy model; the component actually used is confirmed cryptographically by the reference'
 
 FLAGSETS = [[], ['Certify'], ['Sign'], ['Certify', 'Sign'], ['EncryptCommunications'], ['EncryptStorage'], ['Sign', 'EncryptCommunications'], ['Authentication']]
